@@ -1,6 +1,6 @@
 (* C15 — routing table invariant, part B: std::partition, split, add_node_to_bucket. *)
 From Coq Require Import List NArith Bool Lia Permutation.
-From LTV Require Import Params_gen.
+From LTV.C15 Require Import ParamsGen.
 From LTV.C15 Require Import Model ProofsMid ProofsTableA.
 Import ListNotations.
 Local Open Scope N_scope.
